@@ -1,6 +1,6 @@
 (* C04 — Gherkin parsing is faithful: structure, text, tags, step types and line numbers.
    Statements only; proofs are in theories/GherkinProofs.v. *)
-From BV Require Import Base UStr GherkinTypes Gherkin GherkinProofs GherkinRowProofs GherkinBlockProofs GherkinTagProofs GherkinTableProofs.
+From BV Require Import Base UStr GherkinTypes Gherkin GherkinProofs GherkinRowProofs GherkinBlockProofs GherkinTagProofs GherkinTableProofs GherkinDocProofs GherkinRichProofs.
 From BVGen Require Import GherkinTables.
 
 (* In every one of the languages of behave.i18n, every alias of every structural keyword, written as "<alias>: x", is
@@ -146,6 +146,19 @@ Theorem a_feature_with_tags_and_step_tables_is_parsed_into_exactly_what_was_writ
     option_map fin_feature (m_feat m') = Some (mkPFeat falias fname 1 [] [] None (expected_rich scens 1) code).
 Proof. exact a_feature_with_tags_and_step_tables_is_read_back_exactly. Qed.
 Print Assumptions a_feature_with_tags_and_step_tables_is_parsed_into_exactly_what_was_written.
+
+(* with tags, doc-strings and step tables: a step may carry a doc-string block (its text: the
+   lines between the delimiters without the delimiter's indentation and trailing blanks, joined
+   by newlines, located at the opening delimiter) and / or a table *)
+Theorem a_feature_with_tags_docstrings_and_tables_is_parsed_into_exactly_what_was_written :
+  forall kw code fline falias fname scens,
+  feature_line kw fline falias fname -> Forall (xscen_ok kw) scens ->
+  exists m',
+    finish_table (fold_left feed (fline :: flat_map xscen_lines scens) (ROk (init_state code kw VFeature StInitial))) = ROk m' /\
+    m_table m' = None /\
+    option_map fin_feature (m_feat m') = Some (mkPFeat falias fname 1 [] [] None (expected_x scens 1) code).
+Proof. exact a_feature_with_tags_docstrings_and_tables_is_read_back_exactly. Qed.
+Print Assumptions a_feature_with_tags_docstrings_and_tables_is_parsed_into_exactly_what_was_written.
 
 (* non-vacuity: a German document with header, tags over two lines with a comment, a background, an outline with examples,
    a doc-string and a table with an escaped pipe, indentation, blank and comment lines *)
